@@ -27,7 +27,7 @@ func zzIncludeAndIndex(sm *StateMachine, st *zzStore, txs ...[]byte) (*lib.Apply
 	return r, err
 }
 
-//zz:harness mode=int unwind=60 maxpaths=40000 timebudget=1500
+//zz:harness mode=int unwind=60 maxpaths=40000 timebudget=1500 replay=model
 //zz:reach O1.included-once
 func ZZ_C06_O1_identical_bytes() {
 	w := zzWorldValues()
@@ -50,7 +50,7 @@ func ZZ_C06_O1_identical_bytes() {
 	zzAssert("O1.same-block-duplicate-aborts-block", e3 != nil)
 }
 
-//zz:harness mode=int unwind=60 maxpaths=40000 timebudget=1500
+//zz:harness mode=int unwind=60 maxpaths=40000 timebudget=1500 replay=model
 //zz:reach O23.included
 func ZZ_C06_O2_O3_domain_and_window() {
 	w := zzWorldValues()
@@ -70,7 +70,7 @@ func ZZ_C06_O2_O3_domain_and_window() {
 	zzAssert("O3.created-height-not-too-old", h <= BlockAcceptanceRange || spec.created >= h-BlockAcceptanceRange)
 }
 
-//zz:harness mode=int unwind=60 maxpaths=40000 timebudget=1500
+//zz:harness mode=int unwind=60 maxpaths=40000 timebudget=1500 replay=model
 //zz:reach O4.included-once
 func ZZ_C06_O4_reencoded_bytes() {
 	w := zzWorldValues()
